@@ -30,15 +30,15 @@ type Job struct {
 
 // Msg is one line of the worker->coordinator protocol.
 type Msg struct {
-	T      string  `json:"t"` // start | viol | done | replay | log
-	I      int     `json:"i,omitempty"`
-	Replay *Replay `json:"replay,omitempty"`
-	Stats  *Stats  `json:"stats,omitempty"`
-	Hash   string  `json:"hash,omitempty"`
-	Repro  bool    `json:"repro,omitempty"`
-	Text   string  `json:"text,omitempty"`
-	Last   int     `json:"last,omitempty"`
-	TimedOut bool  `json:"timed_out,omitempty"`
+	T        string  `json:"t"` // start | viol | done | replay | log
+	I        int     `json:"i,omitempty"`
+	Replay   *Replay `json:"replay,omitempty"`
+	Stats    *Stats  `json:"stats,omitempty"`
+	Hash     string  `json:"hash,omitempty"`
+	Repro    bool    `json:"repro,omitempty"`
+	Text     string  `json:"text,omitempty"`
+	Last     int     `json:"last,omitempty"`
+	TimedOut bool    `json:"timed_out,omitempty"`
 }
 
 var out *os.File
